@@ -526,6 +526,74 @@ func rotatingIDs(run *evid.Run, idx int) {
 	}
 }
 
+// divergedSession: an upload session of which one member holds more bytes than the other (a chunk that
+// reached one member only - what a partially failed write leaves behind). The unifier is then asked to
+// resume at the offset of either member, or wherever the registry stands, and to write. The write rule's
+// first half needs no equal members: a write that is reported as refused has altered neither member.
+func divergedSession(run *evid.Run, idx int) {
+	m0, m1 := ocimem.New(), ocimem.New()
+	r0, r1 := rec.New(m0), rec.New(m1)
+	u := ociunify.New(r0.Interface(), r1.Interface(), &ociunify.Options{ReadPolicy: ociunify.ReadPolicy(idx % 2)})
+	const repo = "r/diverged"
+	w, err := u.PushBlobChunked(bg, repo, 0)
+	if err != nil {
+		run.Inconclusive("diverged-session setup: " + err.Error())
+		return
+	}
+	w.Write([]byte("hello"))
+	w.Close()
+	ws0, ws1 := r0.Writers(), r1.Writers()
+	if len(ws0) == 0 || len(ws1) == 0 {
+		run.Inconclusive("diverged-session setup: a member saw no upload")
+		return
+	}
+	ids := [2]string{ws0[0].ID(), ws1[0].ID()}
+	mems := [2]*ocimem.Registry{m0, m1}
+	ahead := idx / 2 % 2 // the member that received one more chunk
+	if wa, err := mems[ahead].PushBlobChunkedResume(bg, repo, ids[ahead], -1, 0); err == nil {
+		wa.Write([]byte("!!"))
+	}
+	sizes := func() [2]int64 {
+		var out [2]int64
+		for i := range mems {
+			out[i] = -1
+			if wm, err := mems[i].PushBlobChunkedResume(bg, repo, ids[i], -1, 0); err == nil {
+				out[i] = wm.Size()
+			}
+		}
+		return out
+	}
+	before := sizes()
+	off := []int64{5, 7, -1, 6}[idx/4%4]
+	run.Eval(1)
+	var rerr, werr error
+	var wrote bool
+	if !run.Case("diverged-session/total", map[string]any{"resume_offset": off}, func() {
+		var w2 ociregistry.BlobWriter
+		w2, rerr = u.PushBlobChunkedResume(bg, repo, w.ID(), off, 0)
+		if rerr == nil && w2 != nil {
+			wrote = true
+			_, werr = w2.Write([]byte("world"))
+			if werr == nil {
+				werr = w2.Close()
+			}
+		}
+	}) {
+		return
+	}
+	after := sizes()
+	run.Count("diverged_session_resumes", 1)
+	run.Distinct(fmt.Sprintf("diverged-session/ahead=m%d/offset=%d/resume-ok=%v/write-ok=%v", ahead, off, rerr == nil, wrote && werr == nil))
+	wit := map[string]any{"members_hold_before": before, "members_hold_after": after, "resume_offset": off, "resume_error": fmt.Sprint(rerr), "write_error": fmt.Sprint(werr)}
+	refused := rerr != nil || werr != nil
+	if refused && after != before {
+		run.Violation("unequal/refused-write-altered-a-member/Write", fmt.Sprintf("the members held %v bytes of the session; a resume at offset %d and write of 5 bytes through the unifier was refused (%v / %v), yet the members now hold %v", before, off, rerr, werr, after), wit)
+	}
+	if !refused && (after[0] != before[0]+5 || after[1] != before[1]+5) {
+		run.Violation("unequal/success-without-both/Write", fmt.Sprintf("the write was reported as a success; the members went from %v to %v bytes", before, after), wit)
+	}
+}
+
 // unequalWrites: writes through the unifier over members that are NOT equal (repositories, tags and
 // content known to one member only). The first half of the write rule does not depend on the members
 // being equal: the write reaches both members, and success is reported only if both calls succeeded.
@@ -793,6 +861,10 @@ func main() {
 		rotatingIDs(run, i)
 	}
 	run.FloorCounter("rotating_id_uploads_with_resume", 100)
+	for i := 0; i < 32; i++ {
+		divergedSession(run, i)
+	}
+	run.FloorCounter("diverged_session_resumes", 30)
 	nw := run.N(400, 8000)
 	for i := 0; i < nw; i++ {
 		writeHistory(run, i)
